@@ -6,6 +6,8 @@ import (
 	"iter"
 	"sync"
 	"sync/atomic"
+
+	"github.com/openfga/openfga/internal/verifhook"
 )
 
 // ErrInvalidCapacity indicates that a capacity value is invalid.
@@ -218,9 +220,11 @@ func (p *Queue[T]) Send(ctx context.Context, item T) bool {
 		if diff == 0 {
 			// Slot is writable. Try to claim it.
 			if p.head.CompareAndSwap(pos, pos+1) {
+				verifhook.Yield("mpmc.send.claimed")
 				cell.Data = item
 				// Publish: storing seq = pos+1 makes the slot readable.
 				cell.Sequence.Store(pos + 1)
+				verifhook.Yield("mpmc.send.published")
 				// Wake one parked receiver, if any.
 				select {
 				case p.empty <- struct{}{}:
@@ -249,6 +253,7 @@ func (p *Queue[T]) Send(ctx context.Context, item T) bool {
 				p.mu.Unlock()
 			} else {
 				// Extensions exhausted: park until a receiver frees a slot.
+				verifhook.Yield("mpmc.send.beforePark")
 				select {
 				case <-p.full:
 				case <-ctx.Done():
@@ -282,12 +287,14 @@ func (p *Queue[T]) Recv(ctx context.Context) (T, bool) {
 		if diff == 0 {
 			// Slot is readable. Try to claim it.
 			if p.tail.CompareAndSwap(pos, pos+1) {
+				verifhook.Yield("mpmc.recv.claimed")
 				value := cell.Data
 				var zero T
 				cell.Data = zero
 				// Recycle: storing seq = pos+capacity makes the slot
 				// writable again on the next pass through the ring.
 				cell.Sequence.Store(pos + int64(p.capacity))
+				verifhook.Yield("mpmc.recv.recycled")
 
 				// Wake one parked sender, if any. The done guard
 				// is required because Recv may drain items after
@@ -309,6 +316,7 @@ func (p *Queue[T]) Recv(ctx context.Context) (T, bool) {
 			}
 			// Park until a sender publishes a value.
 			p.mu.RUnlock()
+			verifhook.Yield("mpmc.recv.beforePark")
 			select {
 			case <-p.empty:
 			case <-ctx.Done():
